@@ -19,13 +19,49 @@ Theorem C28_stale_until_rebuild : forall e ty ops,
   usable (fold_left m_step ops (m_step e (MEdgeWrite ty))) = false.
 Proof. exact stale_until_rebuild. Qed.
 
+Definition ex_entry : entry :=
+  {| e_types := [0]; e_prop := Some 0; e_elig := None;
+     e_index := match build_index 3 [(1, 0); (2, 0)] FAuto with
+                | inl i => Some (set_measure i [Some 1; Some 2; Some 3]%Z [OSum])
+                | inr _ => None
+                end;
+     e_stale := false |}.
+
 Example C28_stale_nonvacuous :
-  let ix := match build_index 3 [(1, 0); (2, 0)] FAuto with inl i => Some (set_measure i [Some 1; Some 2; Some 3]%Z [OSum]) | inr _ => None end in
-  let e := {| e_types := [0]; e_prop := Some 0; e_index := ix; e_stale := false |} in
-  usable e = true /\
-  usable (fold_left m_step [MMeasureWrite 0 1 (Some 5%Z); MEdgeWrite 1] (m_step e (MEdgeWrite 0))) = false /\
-  usable (m_step e (MMeasureWrite 0 1 (Some 5%Z))) = true.
+  usable ex_entry = true /\
+  usable (fold_left m_step [MMeasureWrite 0 1 (Some 5%Z); MEdgeWrite 1] (m_step ex_entry (MEdgeWrite 0))) = false /\
+  usable (m_step ex_entry (MMeasureWrite 0 1 (Some 5%Z))) = true.
 Proof. vm_compute. repeat split; reflexivity. Qed.
+
+(* Every history of edge writes, property writes, property removals and rebuilds OUTSIDE the known
+   class keeps the measure held by a usable index equal to the measure in the graph ([synced]);
+   the ghost measure g follows the graph (g_step), the entry follows the code (m_step). *)
+Theorem C28_measure_synced : forall ops e g, synced e g ->
+  forallb rebuild_ok ops = true -> Known_C28 e ops = false ->
+  synced (fst (mg_run e g ops)) (snd (mg_run e g ops)).
+Proof. exact measure_synced. Qed.
+
+(* Known finding (GraphStore::remove_node_property does not notify the hierarchy manager): inside
+   the class the property fails — a usable index keeps the removed value. *)
+Theorem C28_refuted : exists e g ops,
+  synced e g /\ forallb rebuild_ok ops = true /\ Known_C28 e ops = true /\
+  ~ synced (fst (mg_run e g ops)) (snd (mg_run e g ops)).
+Proof.
+  exists ex_entry, [Some 1; Some 2; Some 3]%Z, [MPropRemove 0 2].
+  split; [|split; [reflexivity|split; [reflexivity|]]].
+  - intros _. eexists; split; reflexivity.
+  - intros S. destruct (S eq_refl) as [ix [E1 E2]]. vm_compute in E1. inversion E1; subst ix.
+    vm_compute in E2. discriminate.
+Qed.
+
+Example C28_measure_synced_nonvacuous :
+  let ops := [MMeasureWrite 0 2 (Some 9%Z); MPropRemove 1 2; MEdgeWrite 1; MMeasureWrite 0 0 None] in
+  synced ex_entry [Some 1; Some 2; Some 3]%Z /\ forallb rebuild_ok ops = true /\
+  Known_C28 ex_entry ops = false /\ usable (fst (mg_run ex_entry [Some 1; Some 2; Some 3]%Z ops)) = true /\
+  snd (mg_run ex_entry [Some 1; Some 2; Some 3]%Z ops) = [None; Some 2; Some 9]%Z.
+Proof.
+  cbv zeta. split; [intros _; eexists; split; reflexivity|]. vm_compute. repeat split; reflexivity.
+Qed.
 
 (* ---- nested-set encoding: trees and forests of every size ---- *)
 (* subsumption test = brute-force closure *)
@@ -191,6 +227,8 @@ Definition C28_full : Prop :=
 
 Print Assumptions C28_spec_closure.
 Print Assumptions C28_stale_until_rebuild.
+Print Assumptions C28_measure_synced.
+Print Assumptions C28_refuted.
 Print Assumptions C28_nested_subsumes.
 Print Assumptions C28_nested_desc.
 Print Assumptions C28_rollup_fenwick_build_partial.
